@@ -14,10 +14,15 @@ Full-strength statement of the property (NOT provable for the code as it is — 
         (hwf : feeder contract) : readTokens cd (writeNL m o) = .ok (intended m o)   -- every item, every number as fed
 
 What is proved instead: `C03_roundtrip` — the reader returns exactly `events cd m o`, a function of the fed model
-that differs from "as fed" in four places only (a bound equal to ∓DBL_MAX is returned as ∓∞; `ampl_vbtol` goes
-through `cd.vb` = `%.g`; a text header with `flags = 0 ∧ arith_kind = 0` reads back the constructor defaults;
-an `int` suffix value INT_MIN cannot be written in text format, excluded by `wellFormed`), each with a proved
-counterexample and a `…_partial` theorem for its complement.
+that differs from "as fed" in two places only (a bound equal to ∓DBL_MAX is returned as ∓∞; a text header with
+`flags = 0 ∧ arith_kind = 0` reads back the constructor defaults), each with a proved counterexample and a `…_partial`
+theorem for its complement.  Both are open known findings.
+
+Fixed in ampl/mp since the first version of this check (and restated at full strength here): `ampl_vbtol` is written
+with `%.17g` (fe95054) and now round-trips modulo the number codec `cd.vb` (`C03_vbtol_roundtrip`); an `int` suffix value
+INT_MIN is printed correctly in text (f881e91), so `wellFormed` no longer restricts suffix values and `C03_roundtrip`
+covers them (`C03_int_suffix_any_value`); a call without arguments no longer trips an assertion (150e7c0) and is covered
+by `C03_expr_roundtrip` (`C03_call_zero_args`).
 -/
 namespace MpVerif.C03
 open MpVerif.Gen.OpcodesW
@@ -136,7 +141,7 @@ theorem C03_counterexample_dblmax_bound :
   · simp [evBnd, Dbl.negMaxFinite, Dbl.leNegMax, Dbl.geMax, idCodec]
   · decide
 
-/-- header: with `flags ≠ 0 ∨ arith_kind ≠ 0` and a one-digit vbtol (`cd.vb x = x`) every header field the reader
+/-- header: with `flags ≠ 0 ∨ arith_kind ≠ 0` and an exact `%.17g` codec (`cd.vb x = x`) every header field the reader
     supports comes back as fed (format and, for text, arith kind are the written ones) -/
 theorem C03_header_partial (cd : Codec) (h : Hdr) (o : Opts) (hf : h.flags ≠ 0 ∨ h.arith ≠ 0)
     (hvb : cd.vb h.vbtol = h.vbtol) (hn : 2 ≤ h.nopts) (hlen : h.opts.length = 9) (h3 : h.opts[1]? = some (3 : Int)) :
@@ -156,24 +161,40 @@ theorem C03_counterexample_flags_default (cd : Codec) :
     (readBackHdr cd { flags := 0, arith := 0 } { binary := false }).flags = 1 := by
   simp [readBackHdr, hdr0]
 
-/-- counterexample (`hdr:vbtol-one-digit`, DESIGN A10): whenever `%.g` does not reproduce vbtol, the header does not -/
-theorem C03_counterexample_vbtol (cd : Codec) (x : Dbl) (hx : cd.vb x ≠ x) :
-    (readBackHdr cd { opts := [1, 3, 0, 0, 0, 0, 0, 0, 0], vbtol := x } {}).vbtol ≠ x := by
-  simpa [readBackHdr, hdr0] using hx
+/-- **vbtol round trip** (full strength since fe95054): whenever the header carries `ampl_vbtol`
+    (`num_ampl_options ≥ 2`, `ampl_options[1] = 3`), the reader reports `cd.vb vbtol`, i.e. `strtod(printf("%.17g", vbtol))`;
+    with an exact codec (tested by the harness with libc on every run) that is `vbtol` itself -/
+theorem C03_vbtol_roundtrip (cd : Codec) (h : Hdr) (o : Opts) (hn : 2 ≤ h.nopts) (hlen : h.opts.length = 9)
+    (h3 : h.opts[1]? = some (3 : Int)) :
+    (readBackHdr cd h o).vbtol = cd.vb h.vbtol ∧ (cd.vb h.vbtol = h.vbtol → (readBackHdr cd h o).vbtol = h.vbtol) := by
+  have h1 : (h.opts.take h.nopts ++ hdr0.opts.drop (h.opts.take h.nopts).length)[1]? = some (3 : Int) := by
+    have : 1 < (h.opts.take h.nopts).length := by simp [List.length_take]; omega
+    rw [List.getElem?_append_left this]
+    simp [List.getElem?_take, h3]; omega
+  have e : (readBackHdr cd h o).vbtol = cd.vb h.vbtol := by
+    show (if _ ∧ _ then cd.vb h.vbtol else Dbl.zero) = cd.vb h.vbtol
+    rw [if_pos ⟨h1, h3⟩]
+  exact ⟨e, fun hv => by rw [e, hv]⟩
 
-/-- counterexample (`suffix:int-min-text`): in text format the token written for an int suffix value INT_MIN is not an
-    integer, and `ReadInt` rejects it; in binary it is the integer -/
-theorem C03_counterexample_int_min_text :
-    (∀ ts, readInt (wIntTok { binary := false } (-2147483648) :: ts) = .error .expectedInt) ∧
-    (∀ ts, readInt (wIntTok { binary := true } (-2147483648) :: ts) = .ok (-2147483648, ts)) := by
-  constructor <;> intro ts <;> simp [wIntTok, readInt]
+/-- **INT_MIN suffix values** (full strength since f881e91): an int suffix with *any* integer values, in text or binary,
+    is read back value by value -/
+theorem C03_int_suffix_any_value (o : Opts) (n : Nat) (l : List (Nat × Int)) (rest : List Tok) (h : sparseOk n l = true) :
+    readSufI n l.length (wSparseI o l ++ rest) = .ok (evSparseI l, rest) :=
+  readSufI_wSparseI o n l rest h
+
+/-- **calls without arguments** (accepted by the writer since 150e7c0): `f<i> 0` is read back as a call with no arguments -/
+theorem C03_call_zero_args (c : RCtx) (o : Opts) (fi : Nat) (d : String) (f : Nat) (rest : List Tok) (hfi : fi < c.nf) :
+    readE c (f + 1) .num (wE o (.call fi d []) ++ rest) = .ok (.node "call" [fi, 0] [] "" [], rest) := by
+  have hwf : wfE ⟨c.nve, c.nf⟩ .num (.call fi d []) = true := by simp [wfE, wfEs, hfi]
+  have := readE_wE c o (.call fi d []) .num (f + 1) rest hwf (by simp [esize, esizes])
+  simpa [hE, hEs] using this
 
 /-! ## non-vacuity: the contract is satisfiable and the theorem computes -/
 
 def exModel : Model :=
   { hdr := { nv := 2, nac := 1, no := 1, nlc := 1, nf := 1, ceb := 1, flags := 1, arith := 1 }
     funcs := [⟨"f", 2, 0⟩]
-    sufs := [⟨"priority", 0, .ints [(1, 7)]⟩, ⟨"ref", 4, .dbls [(0, ⟨false, 1023, 0⟩)]⟩]
+    sufs := [⟨"priority", 0, .ints [(1, 7), (0, -2147483648)]⟩, ⟨"ref", 4, .dbls [(0, ⟨false, 1023, 0⟩)]⟩]
     vb := [(Dbl.negInf, Dbl.posInf), (Dbl.zero, ⟨false, 1024, 0⟩)]
     cb := [⟨Dbl.zero, Dbl.zero, 0, 0⟩]
     x0 := some [(0, ⟨false, 1023, 0⟩)]
